@@ -44,15 +44,34 @@ Judge(e) ==
                 LET c == Conforms(Schema, ty, it, "write") IN
                 /\ Obl("C03", sc, <<ty, it.mt, Len(it.kids)>>)
                 /\ IF c = OK THEN TRUE ELSE Fail("C03", "Emit/" \o ty \o "/" \o c[Len(c)], sc, [bytes |-> b]))
-          \* C17: JSON form
+          \* C17: JSON form. fr = OK: the instance is in the form a value built through the typed API is written in; otherwise its last
+          \* element says which retained encoding detail / unsupported content the instance has, and the demand is adapted to it.
           /\ (Has(r, "json") =>
-                /\ Obl("C17", sc, <<ty, it.mt, Len(it.kids)>>)
+                LET fr == IF gen /\ HasSchema(ty) /\ ~IsErr(it) THEN Conforms(Schema, ty, it, "fresh") ELSE <<"not-generated">>
+                    why == IF fr = OK THEN "fresh" ELSE fr[Len(fr)] IN
+                /\ Obl("C17", sc, <<ty, it.mt, Len(it.kids), why>>)
                 /\ IF Has(r.json, "panic") THEN Fail("C17", "Json/" \o ty \o "/to_json-panics", sc, [bytes |-> b])
-                   ELSE IF ~Has(r.json, "ok") THEN Fail("C17", "Json/" \o ty \o "/to_json-fails", sc, [bytes |-> b, err |-> r.json.err])
+                   ELSE IF ~Has(r.json, "ok") THEN
+                        (IF why = "md-int-below-i64" THEN Note("C17", "to_json refuses a metadatum integer below -2^63 (first conversion does not succeed)", sc, [ty |-> ty])
+                         ELSE Fail("C17", "Json/" \o ty \o "/to_json-fails/" \o why, sc, [bytes |-> b, err |-> r.json.err]))
                    ELSE LET f == r.json.from_json IN
                         IF ~Has(f, "ok") THEN Fail("C17", "Json/" \o ty \o "/own-json-does-not-read-back", sc, [bytes |-> b, r |-> f])
-                        ELSE /\ Chk(f.eq, "C17", "Json/" \o ty \o "/value-read-back-not-equal", sc, [bytes |-> b])
-                             /\ Chk(Has(f.to_bytes, "ok") /\ f.to_bytes.b = b, "C17", "Json/" \o ty \o "/bytes-differ-after-json-roundtrip", sc, [bytes |-> b])))
+                        ELSE LET ob == IF Has(f.to_bytes, "ok") THEN f.to_bytes.b ELSE <<>>
+                                 oit == Parse(ob) IN
+                             /\ Chk(Has(f.again, "ok") /\ f.again.same_json /\ f.again.b = ob, "C17", "Json/" \o ty \o "/second-pass-differs", sc, [bytes |-> b, again |-> f.again])
+                             /\ CASE why \in {"fresh", "md-int-below-i64"} ->
+                                       /\ Chk(f.eq, "C17", "Json/" \o ty \o "/value-read-back-not-equal", sc, [bytes |-> b])
+                                       /\ Chk(ob = b, "C17", "Json/" \o ty \o "/bytes-differ-after-json-roundtrip", sc, [bytes |-> b, out |-> ob])
+                                  [] why = "plutus-v2v3" ->
+                                       Chk(f.eq /\ ob = b, "C17", "Json/value-read-back-not-equal/non-v1-plutus-script", sc, [bytes |-> b, out |-> ob])
+                                  [] why = "map-not-ascending" ->
+                                       \* the library's equality of insertion-ordered maps is order-sensitive: only the content is demanded
+                                       /\ Chk(~IsErr(oit) /\ SameContent(it, oit), "C17", "Json/" \o ty \o "/content-differs-after-json-roundtrip", sc, [bytes |-> b, out |-> ob])
+                                  [] why \in {"bignum-form", "constr-general-form", "redeemers-array-form", "output-map-form"} ->
+                                       \* retained encoding detail: the JSON form does not carry it; the content must be equal, the bytes are those of a fresh value
+                                       /\ Chk(f.eq, "C17", "Json/" \o ty \o "/value-read-back-not-equal/" \o why, sc, [bytes |-> b])
+                                       /\ Chk(~IsErr(oit) /\ Conforms(Schema, ty, oit, "fresh") = OK, "C17", "Json/" \o ty \o "/bytes-after-json-not-in-fresh-form/" \o why, sc, [bytes |-> b, out |-> ob])
+                                  [] OTHER -> Note("C17", "instance outside the fresh profile for another reason: " \o why, sc, [ty |-> ty])))
 Init == l = 1
 Next == /\ l <= Len(Rec)
         /\ (CASE Rec[l].ev = "Codec" -> Judge(Rec[l]) [] Rec[l].ev = "Text" -> TextJudge(Rec[l]) [] Rec[l].ev = "Constructed" -> ConsJudge(Rec[l]) [] OTHER -> BatchJudge(Rec[l]))
